@@ -30,13 +30,21 @@ def pool(chk, mdl):
     texts = sorted(set(texts))
     return sorted(set(raws)), texts
 
+def is_dotted_quad(h):
+    """the hex-encoded host text is four dec-octets (what the parser classifies as IPv4)"""
+    t = "".join(chr(c) for c in (dec(h) or []))
+    p = t.split(".")
+    return len(p) == 4 and all(x.isdigit() and (x == "0" or not x.startswith("0")) and int(x) <= 255 and len(x) <= 3 for x in p)
+
 def obj_of_raw(r):
     w = r.split()   # R scheme ui host ip4 ip6 fut port abs n segs.. q f
     n = int(w[9])
     return uris.Obj(w[1:9] + ["0"] + [str(n)] + w[10:10 + n] + w[10 + n:12 + n] + ["ok"])
 
 def run(chk):
-    proofs = lib.check_proofs(PID)
+    import os
+    extra = tuple(x for x in ("C11text",) if os.path.exists(os.path.join(lib.COQ, "Props", x + ".v")))
+    proofs = lib.check_proofs(PID, extra_props=extra)
     exes = lib.build_impl(); mdl = lib.build_model()
     fnd = lib.Findings(PID)
     raws, texts = pool(chk, mdl)
@@ -102,12 +110,14 @@ def run(chk):
                               {"request": rq, "build": fl, "impl": o})
     # ---- library-produced URIs: equal exactly when the recomposed texts are identical
     recipes = []
-    srcs = ["s:/a/..", "s:/", "s:/a/.", "s:/a/", "s:a/..", "s:", "s://h/a/..", "s://h/", "s://h", "S://H/%41", "s://h/A", "a/b/..", "a/", "/a/../b", "/b", "//h/../b", "//h/b"]
+    srcs = ["s:/a/..", "s:/", "s:/a/.", "s:/a/", "s:a/..", "s:", "s://h/a/..", "s://h/", "s://h", "S://H/%41", "s://h/A", "a/b/..", "a/", "/a/../b", "/b", "//h/../b", "//h/b",
+            # a registered name that reads as an IPv4 address once its triplets are decoded (D17), next to the address itself
+            "//%31.2.3.4", "//1.2.3.4", "s://1.2.3.%34/a", "s://1.2.3.4/a", "/", "/a"]
     for t in srcs:
         recipes.append([('p', 0, t)]); recipes.append([('p', 0, t), ('n', 0, 63)]); recipes.append([('p', 0, t), ('o', 0)])
     for r, b in [("..", "s:/x/y"), ("/./", "s:/a/"), (".//b", "s:a"), ("/b", "s:a"), ("../../", "s:/./a"), ("../../.", "s:/./a"), ("b", "s://h/a"), ("./b", "s://h/a"), ("/.//a", "s:/x"), ("s:/.//a", "s:/x"), ("", "s://h/a?q"), ("?q", "s://h/a")]:
         recipes.append([('p', 1, r), ('p', 2, b), ('a', 0, 1, 2, 0)]); recipes.append([('p', 1, r), ('p', 2, b), ('a', 0, 1, 2, 0), ('n', 0, 63)])
-    for s_, b in [("s://h/a/b", "s://h/a/c"), ("s://h/a/b", "s://h/x"), ("s:/a/b", "s:/a/c")]:
+    for s_, b in [("s://h/a/b", "s://h/a/c"), ("s://h/a/b", "s://h/x"), ("s:/a/b", "s:/a/c"), ("s://h/", "s://h/a"), ("s://h/a", "s://h/a/b"), ("s://h", "s://h/a")]:
         recipes.append([('p', 1, s_), ('p', 2, b), ('r', 0, 1, 2, 0)]); recipes.append([('p', 1, s_), ('p', 2, b), ('r', 0, 1, 2, 1)])
     def shift(rec, off):
         out = []
@@ -147,6 +157,7 @@ def run(chk):
                 for s in (a, b):
                     ob = s["obj"]
                     if not ob.has_host() and ob.abs == "0" and len(ob.segs) >= 2 and ob.segs[0] == "_": shape = "c11_rootless_leading_empty"
+                    elif ob.has_host() and ob.ip4 == "-" and ob.ip6 == "-" and ob.ipFuture == "-" and is_dotted_quad(ob.hostText): shape = "c11_ip4_spelled_regname"
                 if shape and o == m and fnd.covers(shape, {"history": rq}): continue
                 chk.violation("two library-produced URIs: uriEqualsUri = %d but recomposed texts are %s" % (eqs[-1]["eq"], "identical" if same_text else "different"),
                               {"request": rq, "build": fl, "impl": o, "text_a": show(a["text"]), "text_b": show(b["text"]), "shape": shape})
@@ -160,8 +171,14 @@ def run(chk):
         o = lib.run_lines(exes["A"], [f["witness_args"][0]])[0]
         steps, _ = uris.parse_hist(o)
         toks = f["witness_args"][0].split()[1:]
-        res = [s for tok, s in zip(toks, steps) if tok[0] in "ar" and s.get("obj")]     # the two resolution results that are compared
-        still[f["shape"]] = (any("eq" in s and s["eq"] == 0 for s in steps) and res[-1]["text"] == res[-2]["text"]) if len(res) >= 2 else False
+        # the last state of every slot, then the comparison step e<i>=<j>: unequal although the two texts are the same
+        state = {}; fails = False
+        for tok, s in zip(toks, steps or []):
+            if s.get("obj"): state[int(tok[1:].split("=")[0])] = s
+            if tok[0] == "e" and "eq" in s:
+                i, j = int(tok[1:].split("=")[0]), int(tok.split("=")[1])
+                fails = s["eq"] == 0 and i in state and j in state and state[i]["text"] == state[j]["text"]
+        still[f["shape"]] = fails
     fnd.report(chk, still)
     chk.cov["distinct_nontrivial"] = len(nontrivial)
     chk.cov["rule"] = "pool of raw objects differing in one component at a time (absent / empty / different / case; IPv4 and IPv6 by value; segment lists) and parsed texts; all ordered pairs (sampled to 120000 in the quick tier); NULL arguments; %d x %d pairs of library-produced objects (parse, normalize, make-owner, resolve, create-reference recipes) compared with their recomposed texts" % (len(recipes), len(recipes))
